@@ -197,7 +197,7 @@ def install():
     _installed = True
 
 
-OPS = ('r', 'wx', 'wy', 'rw', 'rx', 'co', 'u1', 'u2')
+OPS = ('r', 'wx', 'wy', 'rw', 'rx', 'co', 'u1', 'u2', 'cx', 'csx')
 
 
 def gen_programs(rng, nthreads=2, length=4):
@@ -292,6 +292,17 @@ def scenario(job):
                         tm.commit()
                     elif op == 'wy':
                         r['y'].value += 1
+                        tm.commit()
+                    elif op in ('cx', 'csx'):
+                        # declare a dependency on x being current, write y (optionally through a savepoint)
+                        _ = r['x'].value
+                        c.readCurrent(r['x'])
+                        _emit(ev='ReadCurrent', conn=conn_names_by_conn[id(c)], oid='x')
+                        r['y'].value += 1
+                        if op == 'csx':
+                            tm.savepoint()
+                            _emit(ev='Savepoint', conn=conn_names_by_conn[id(c)])
+                            r['y'].value += 1
                         tm.commit()
                     elif op == 'rx':
                         _ = r['x'].value
